@@ -5,7 +5,7 @@
     [WHERE p] is the number of TRUEs of [p] in the select list; filtering by conjuncts in two steps equals
     filtering by the conjunction (pushdown).  Only pinned statements, each closed by [exact]. *)
 From Coq Require Import List ZArith Bool Permutation.
-From VibeSQL Require Import Sem.Syntax Sem.Rel Sem.Laws Sem.TlpLaws.
+From VibeSQL Require Import Sem.Syntax Sem.Rel Sem.Laws Sem.Eval Sem.TlpLaws Sem.TlpSem.
 Import ListNotations.
 Open Scope Z_scope.
 
@@ -81,3 +81,14 @@ Print Assumptions C06_pushdown_sound.
 Theorem C06_truthiness_agree : forall v : value, tv v = true -> truthy_c v = is_true v.
 Proof. exact truthiness_agree. Qed.
 Print Assumptions C06_truthiness_agree.
+
+(** ... and the laws hold of the reference evaluator's own WHERE filter: whenever [w] evaluates to TRUE,
+    FALSE or NULL on every row, the filters for [w], [NOT w] and [w IS NULL] all succeed and split the rows *)
+Theorem C06_where_tlp_partition : forall (n : nat) (d : db) (env : list row) (w : expr) (p : row -> value) (l : list row),
+  (forall r, In r l -> eval_expr n d (r :: env) w = Ok (p r)) ->
+  (forall r, In r l -> tv (p r) = true) ->
+  exists a b c,
+    where_filter (S n) d env w l = Ok a /\ where_filter (S n) d env (ENot w) l = Ok b
+    /\ where_filter (S n) d env (EIsNull w false) l = Ok c /\ Permutation l (a ++ b ++ c).
+Proof. exact where_tlp_partition. Qed.
+Print Assumptions C06_where_tlp_partition.
